@@ -22,6 +22,10 @@ type execResult struct {
 // ExecInSubprocess executes a plan in a fresh process. died reports that the
 // process did not finish normally (fatal error, os.Exit, race report, hang).
 func ExecInSubprocess(c *Check, p *drv.Plan, self string) (out *Out, died bool, kind string, stderr string) {
+	return execInSubprocessT(c, p, self, c.RunTimeout+15*time.Second)
+}
+
+func execInSubprocessT(c *Check, p *drv.Plan, self string, limit time.Duration) (out *Out, died bool, kind string, stderr string) {
 	dir, err := os.MkdirTemp("", "verif-exec-")
 	if err != nil {
 		return nil, false, "", ""
@@ -30,7 +34,7 @@ func ExecInSubprocess(c *Check, p *drv.Plan, self string) (out *Out, died bool, 
 	f := filepath.Join(dir, "plan.json")
 	b, _ := json.Marshal(p)
 	_ = os.WriteFile(f, b, 0o644)
-	ctx, cancel := context.WithTimeout(context.Background(), c.RunTimeout+15*time.Second)
+	ctx, cancel := context.WithTimeout(context.Background(), limit)
 	defer cancel()
 	cmd := exec.CommandContext(ctx, self, "exec", f)
 	cmd.Env = append(os.Environ(), "GORACE=halt_on_error=1 exitcode=66")
@@ -135,7 +139,14 @@ func makeEvaluator(c *Check, want *drv.Violation, self string) evaluator {
 	sub := want.Oracle == c.ID+".process"
 	return func(p *drv.Plan) *drv.Violation {
 		if sub {
-			out, died, kind, stderr := ExecInSubprocess(c, p, self)
+			limit := c.RunTimeout + 15*time.Second
+			if want.Symptom == "hang" {
+				// a run normally takes milliseconds: while minimising, a candidate
+				// that is still running after a few seconds counts as hanging (the
+				// final replay uses the full watchdog again)
+				limit = 6 * time.Second
+			}
+			out, died, kind, stderr := execInSubprocessT(c, p, self, limit)
 			if died {
 				v := crashViolation(c, kind, stderr)
 				if v.SameClass(want) {
@@ -205,6 +216,9 @@ func genericShrink(c *Check, p *drv.Plan, want *drv.Violation, self string) *drv
 	budget := 600
 	if want.Oracle == c.ID+".process" {
 		budget = 60
+		if want.Symptom == "hang" {
+			budget = 14
+		}
 	}
 	deadline := time.Now().Add(90 * time.Second)
 	if eval(p) == nil {
